@@ -422,3 +422,47 @@ func ruleShimNilMessages(c *Ctx, p *Prog, rule string) {
 		c.Check(rule, key, p, posOfOps(sc.Ops), bad == "", fmt.Sprintf("a nil message can be sent (%s); all %d receive site(s) test for nil before dereferencing", mayNil, nrecv), "a nil message can be sent on "+sc.Field+" ("+mayNil+": e.g. shim data [[42]] or [null]) and "+bad+": nil-pointer panic in a goroutine without recover kills the agent")
 	}
 }
+
+// ruleShimSessionIDs: the key under which the open handler stores a new
+// connection in the session table is produced by an atomic
+// fetch-and-increment (atomic.AddUint64) — a unique value per open call —
+// and is the same value that is reported to the client.
+func ruleShimSessionIDs(c *Ctx, p *Prog, rule string) {
+	se := resolveShimEndpoints(c, p, rule)
+	if se == nil || se.Inner == nil {
+		return
+	}
+	in := se.Inner
+	st := c.UniqueCall(rule, p, in, false, "(*sync.Map).Store")
+	if st == nil {
+		return
+	}
+	key := Args(CallOf(st))[1]
+	fromAdd, fromLoad := false, false
+	SliceBack(key, func(v ssa.Value) bool {
+		if call, ok := v.(*ssa.Call); ok {
+			switch CalleeName(call.Common()) {
+			case "sync/atomic.AddUint64", "sync/atomic.AddInt64", "sync/atomic.AddUint32", "sync/atomic.AddInt32", "(*sync/atomic.Uint64).Add", "(*sync/atomic.Int64).Add":
+				fromAdd = true
+			case "sync/atomic.LoadUint64", "sync/atomic.LoadInt64", "(*sync/atomic.Uint64).Load", "(*sync/atomic.Int64).Load":
+				fromLoad = true
+			case "github.com/google/uuid.New", "github.com/google/uuid.NewRandom":
+				fromAdd = true
+			}
+		}
+		return true
+	})
+	c.Check(rule, "open:session-id-is-unique", p, st.Pos(), fromAdd && !fromLoad, "the session-table key derives from an atomic fetch-and-increment of the session counter: no two open calls get the same ID", "the session ID stored in the table does not derive (only) from an atomic increment of the session counter (increment: "+fmt.Sprint(fromAdd)+", plain load: "+fmt.Sprint(fromLoad)+"): two overlapping open calls can be given the same ID, the second connection replaces the first in the table and each client then polls/sends on the other's websocket")
+	// the ID reported to the client is the stored key
+	as := AllocsOf(in, "agent/websockets.sessionMessage")
+	ok := false
+	for _, a := range as {
+		if v, has := LiteralField(a, "ID"); has {
+			// key is MakeInterface(string id)
+			if SameValue(v, key) {
+				ok = true
+			}
+		}
+	}
+	c.Check(rule, "open:reported-id-is-stored-key", p, st.Pos(), ok, "the ID returned to the client is the key the connection is stored under", "the session ID returned to the client is not the key under which the connection was stored")
+}
